@@ -1,4 +1,175 @@
-import NriModel.Basic
-/-! Property theorems for C05 — placeholder until the model is written. -/
+import NriModel.Lemmas.ResultUpdates
+/-!
+# C05 — container updates are collected once per target with exactly the fields set
+
+Model `Nri.Result` (`update`, `getContainerUpdate`, `updateResources`, the three response
+getters). `touched rs` is the list of target ids the chain's update lists mention.
+
+Proved for every chain, every request and every placement of ignore-failure flags:
+one entry per distinct target and only for mentioned targets (`C05_one_entry_per_target`);
+for update requests the entry of the updated container is last, a placeholder exactly when no
+plugin named that container (`C05_own_last`); an update of the container being created fails
+the request (`C05_self_update`); an ignore-failure update that conflicts contributes no value
+and raises no error (`C05_ignored_drop`); a failing non-ignored update fails the request
+(`C05_conflict_fails`). "Exactly the fields plugins set, each from its single owner" is proved
+per applied update (`C05_applied_fields`: the entry becomes its base overlaid with the
+update, field by field) — the chain-level value statement is evaluated on every generated
+chain by the correspondence run (`exactFields`) and is not proved: partial.
+-/
 namespace Nri.Props.C05
+open Nri Nri.Api Nri.Result Nri.Ledger
+
+theorem updWF_init (st : State) (h1 : st.updates = []) (h2 : st.own = none) : UpdWF st :=
+  ⟨by simp [ids, h1], by simp [ids, h1], by simp [h2]⟩
+
+/-- **One entry per target.** After any successful request the third-party entries have
+    pairwise distinct targets, each is a target some plugin's update named, every named
+    target other than the container being updated has one, and none of them is the container
+    being updated. -/
+theorem C05_one_entry_per_target (st st' : State) (rs : List (Plugin × Option Response))
+    (h1 : st.updates = []) (h2 : st.own = none) (h : run Quirks.fixed st rs = .ok st') :
+    (ids st'.updates).Nodup ∧
+    (∀ id, id ∈ ids st'.updates ↔ id ∈ touched rs ∧ isOwn st.kind id = false) := by
+  obtain ⟨wf, hid, _⟩ := run_entries _ st st' rs h (updWF_init st h1 h2)
+  refine ⟨wf.nodup, fun id => ?_⟩
+  rw [hid id]; simp [ids, h1]
+
+/-- **Own entry last.** The reply to an update request is the third-party entries followed by
+    exactly one more element: the nil placeholder when no plugin named the updated container,
+    otherwise an entry for that container. -/
+theorem C05_own_last (id : Cid) (req : Resources) (st' : State) (rs : List (Plugin × Option Response))
+    (h : run Quirks.fixed (initUpdate id req) rs = .ok st') :
+    replyUpdates st' = st'.updates.map some ++ [st'.own] ∧
+    (st'.own = none ↔ id ∉ touched rs) ∧
+    (∀ e, st'.own = some e → e.containerId = id) := by
+  have hk : st'.kind = .update id := run_kind _ _ st' rs h
+  obtain ⟨wf, _, hown⟩ := run_entries _ _ st' rs h (updWF_init (initUpdate id req) rfl rfl)
+  refine ⟨by unfold replyUpdates; rw [hk], ?_, ?_⟩
+  · have : (initUpdate id req).own.isSome = false := rfl
+    rw [this] at hown
+    constructor
+    · intro hn hm
+      have := hown.2 (.inr ⟨id, hm, by simp [initUpdate, isOwn]⟩)
+      rw [hn] at this; cases this
+    · intro hn
+      cases ho : st'.own with
+      | none => rfl
+      | some e =>
+        rw [ho] at hown
+        rcases hown.1 rfl with h1 | ⟨id', hm, hi⟩
+        · cases h1
+        · simp [initUpdate, isOwn] at hi; subst hi; exact absurd hm hn
+  · intro e he
+    have := wf.own e he
+    rw [hk] at this
+    simpa [isOwn, eq_comm] using this
+
+/-- for creation and stop requests the reply is just the third-party entries -/
+theorem C05_no_own_otherwise (st' : State) (h : ∀ id, st'.kind ≠ .update id) :
+    replyUpdates st' = st'.updates.map some := by
+  unfold replyUpdates
+  cases hk : st'.kind with
+  | update id => exact absurd hk (h id)
+  | create id => rfl
+  | stop => rfl
+
+/-- **Self-update.** If any plugin's update list names the container being created, the
+    creation request fails. -/
+theorem C05_self_update (c0 : Container) (pre post : List (Plugin × Option Response)) (p : Plugin)
+    (r : Response) (u : Update) (hu : u ∈ r.updates) (hid : u.containerId = c0.id) :
+    ∃ e, run Quirks.fixed (initCreate c0) (pre ++ (p, some r) :: post) = .error e := by
+  rw [run_append]
+  cases h1 : run Quirks.fixed (initCreate c0) pre with
+  | error e => exact ⟨e, rfl⟩
+  | ok st1 =>
+    have hk : st1.kind = .create c0.id := run_kind _ _ st1 pre h1
+    simp only [run]
+    have : ∃ e, apply Quirks.fixed st1 p r = .error e := by
+      unfold apply
+      rw [hk]
+      simp only []
+      cases h2 : adjust Quirks.fixed st1 p r.adjust with
+      | error e => exact ⟨e, rfl⟩
+      | ok st2 =>
+        exact updateAll_fails_of_self _ st2 p r.updates c0.id
+          (by rw [adjust_kind _ st1 st2 p r.adjust h2]; exact hk) u hu hid
+    obtain ⟨e, he⟩ := this
+    exact ⟨e, by rw [he]⟩
+
+/-- **Ignored conflicting update.** When an update marked ignore-failure hits an owned field,
+    the step succeeds and the collected data is exactly what `getContainerUpdate` left: the
+    target has its (possibly new, empty) entry, no resource value of the update — not even of
+    the fields before the conflicting one — reaches any entry or the resources shown to later
+    plugins. -/
+theorem C05_ignored_drop (st st1 : State) (p : Plugin) (u : Update)
+    (hg : getUpdate Quirks.fixed st p u = .ok st1) (hi : u.ignoreFailure = true)
+    (e : Err) (hc : (claimAllPartial u.containerId p st1.owners (updSets Quirks.fixed st1 u)).2 = some e) :
+    ∃ st', update1 Quirks.fixed st p u = .ok st' ∧
+      st'.updates = st1.updates ∧ st'.own = st1.own ∧ st'.reqRes = st1.reqRes ∧ st'.reply = st1.reply := by
+  rcases update1_cases Quirks.fixed st p u with ⟨e', hg', _⟩ | ⟨st1', hg', h2⟩
+  · rw [hg] at hg'; cases hg'
+  · rw [hg] at hg'; cases hg'
+    rcases h2 with ⟨o, hc', _⟩ | ⟨o, e', _, (⟨_, hu⟩ | ⟨hi', _⟩)⟩
+    · rw [hc'] at hc; cases hc
+    · exact ⟨_, hu, rfl, rfl, rfl, rfl⟩
+    · rw [hi] at hi'; cases hi'
+
+/-- **A conflicting update that is not marked ignore-failure fails the request step.** -/
+theorem C05_conflict_fails (st st1 : State) (p : Plugin) (u : Update)
+    (hg : getUpdate Quirks.fixed st p u = .ok st1) (hi : u.ignoreFailure = false)
+    (e : Err) (hc : (claimAllPartial u.containerId p st1.owners (updSets Quirks.fixed st1 u)).2 = some e) :
+    update1 Quirks.fixed st p u = .error e := by
+  rcases update1_cases Quirks.fixed st p u with ⟨e', hg', _⟩ | ⟨st1', hg', h2⟩
+  · rw [hg] at hg'; cases hg'
+  · rw [hg] at hg'; cases hg'
+    rcases h2 with ⟨o, hc', _⟩ | ⟨o, e', hc', (⟨hi', _⟩ | ⟨_, hu⟩)⟩
+    · rw [hc'] at hc; cases hc
+    · rw [hi] at hi'; cases hi'
+    · rw [hc'] at hc; cases hc; exact hu
+
+/-- **Fields of an applied update (per step).** When an update is applied, every scalar the
+    update sets appears in the result with the update's value, every scalar it leaves unset
+    keeps the base value (the runtime's request for the updated container, the entry so far
+    otherwise), hugepage limits are appended and unified keys assigned. -/
+theorem C05_applied_fields (base r : Resources) (m : Memory) (c : Cpu)
+    (hm : r.memory = some m) (hc : r.cpu = some c) :
+    let out := overlayRes base r r.pids
+    (out.memory.map (·.limit) = some (m.limit.orElse fun _ => (base.memory.getD {}).limit)) ∧
+    (out.memory.map (·.swappiness) = some (m.swappiness.orElse fun _ => (base.memory.getD {}).swappiness)) ∧
+    (out.cpu.map (·.shares) = some (c.shares.orElse fun _ => (base.cpu.getD {}).shares)) ∧
+    (out.cpu.map (·.cpus) = some (if c.cpus ≠ [] then c.cpus else (base.cpu.getD {}).cpus)) ∧
+    out.pids = (r.pids.orElse fun _ => base.pids) ∧
+    out.hugepages = base.hugepages ++ r.hugepages ∧
+    out.blockioClass = (r.blockioClass.orElse fun _ => base.blockioClass) ∧
+    out.rdtClass = (r.rdtClass.orElse fun _ => base.rdtClass) := by
+  simp [overlayRes, overlayMem, overlayCpu, hm, hc]
+
+/-! ### the hypotheses are satisfiable -/
+
+private def updOf (id : Str) (r : Resources) (ign : Bool := false) : Update :=
+  { containerId := id, resources := some r, ignoreFailure := ign }
+
+-- own entry last, third-party entries once each although ctrA is named twice
+example :
+    (match run Quirks.fixed (initUpdate (str "c0") { pids := some 5 })
+      [(str "10-a", some { updates := [updOf (str "ctrA") { pids := some 1 }, updOf (str "c0") { memory := some { limit := some 3 } }] }),
+       (str "20-b", some { updates := [updOf (str "ctrA") { cpu := some { shares := some 2 } }] })] with
+     | .ok st => (replyUpdates st).map (fun e => e.map (·.containerId))
+     | .error _ => []) = [some (str "ctrA"), some (str "c0")] := by decide
+
+-- untouched updated container: nil placeholder last
+example :
+    (match run Quirks.fixed (initUpdate (str "c0") { pids := some 5 })
+      [(str "10-a", some { updates := [updOf (str "ctrA") { pids := some 1 }] })] with
+     | .ok st => (replyUpdates st).map (fun e => e.map (·.containerId))
+     | .error _ => []) = [some (str "ctrA"), none] := by decide
+
+-- an ignored conflicting update: dropped in its entirety (cpu shares 9 precede the conflicting pids)
+example :
+    (match run Quirks.fixed initStop
+      [(str "10-a", some { updates := [updOf (str "ctrA") { pids := some 1 }] }),
+       (str "20-b", some { updates := [updOf (str "ctrA") { cpu := some { shares := some 9 }, pids := some 2 } true] })] with
+     | .ok st => st.updates.map (fun e => ((e.resources.getD {}).pids, ((e.resources.getD {}).cpu.getD {}).shares))
+     | .error _ => []) = [(some 1, none)] := by decide
+
 end Nri.Props.C05
